@@ -58,10 +58,46 @@ package types
 //@   trusted
 //@   ensures [size] n >= 0
 
+// ---- hashes and commitments: what is fed to sha256 ------------------------------------------
+// The digests stand for their input (HashHdr, HashData, CommitTxs are injective - assumed of
+// sha256 and of the protobuf encoding, clauses [hash] / [commit]). What is proved is the input:
+// the leaf hash is sha256 over the one-byte leaf prefix followed by the whole encoded value, the
+// commitment is the leaf hash of the encoding of a Data that carries exactly the receiver's
+// transaction list and no metadata (the encoding frames every transaction with its length, so
+// the list can be read back from it), the data hash that of the receiver itself, and the header
+// hash is sha256 of the header's own encoding.
+//@ func leafHashOpt(s, leaf) (r)
+//@   property C01 C03 C12
+//@   requires [hasher] s != nil
+//@   observe rs := call Reset
+//@   observe w1 := call Write@1
+//@   observe w2 := call Write@2
+//@   observe sm := call Sum
+//@   ensures [prefix-then-whole-leaf] rs.count == 1 && w1.count == 1 && w2.count == 1 && sm.count == 1 && rs.seq < w1.seq && w1.seq < w2.seq && w2.seq < sm.seq
+//@                       && w1.arg1 == leafPrefix && w2.arg1 == leaf && len(sm.arg1) == 0 && r == sm.res0
+//@   assumes [leaf-hash] val(r) == LeafHash(val(leaf)) && len(r) == 32
+
+//@ func (d *Data) DACommitment() (r)
+//@   property C01 C03 C12
+//@   observe mb := call MarshalBinary
+//@   observe lh := call leafHashOpt
+//@   ensures [commits-to-the-encoded-list] mb.count == 1 && lh.count == 1 && mb.arg0 != nil && mb.arg0.Txs == d.Txs && mb.arg0.Metadata == nil && lh.arg1 == mb.res0 && r == lh.res0
+//@   assumes [commit] val(r) == CommitTxs(TxsId(d.Txs)) && len(r) == 32
+
 //@ spec func HashData(Int, DMeta) Bytes
 //@ func (d *Data) Hash() (r)
-//@   trusted
-//@   ensures [hash] val(r) == HashData(TxsId(d.Txs), DMetaOf(d)) && len(r) == 32
+//@   property C01 C03 C12
+//@   observe mb := call MarshalBinary
+//@   observe lh := call leafHashOpt
+//@   ensures [hashes-the-encoded-data] mb.count == 1 && lh.count == 1 && mb.arg0 == d && lh.arg1 == mb.res0 && r == lh.res0
+//@   assumes [hash] val(r) == HashData(TxsId(d.Txs), DMetaOf(d)) && len(r) == 32
+
+//@ func (h *Header) Hash() (r)
+//@   property C01 C03 C12
+//@   observe mb := call MarshalBinary
+//@   observe s2 := call Sum256
+//@   ensures [hashes-the-encoded-header] mb.count == 1 && mb.arg0 == h && (mb.res1 == nil ==> s2.count == 1 && s2.arg0 == mb.res0) && (mb.res1 != nil ==> r == nil)
+//@   assumes [hash] val(r) == HashHdr(HdrOf(h)) && len(r) == 32
 
 // ---- C03: who signed it -------------------------------------------------------------------
 
@@ -107,6 +143,7 @@ package types
 //@   loop 1 invariant [step] i >= 0 && i % 100 == 0 && idsResult != nil && i <= len(idsResult.IDs) + 99
 //@   loop 1 invariant [chunk] get.count == 1 ==> get.arg2 == idsResult.IDs[iter(i):min(iter(i) + 100, len(idsResult.IDs))] && i == iter(i) + 100 && get.res1 == nil
 //@   loop 1 invariant [one-get] get.count <= 1
+//@   loop 1 overall [gets-succeeded] get ==> get.res1 == nil
 //@   loop 1 invariant [blobs-follow-ids] len(blobs) == min(i, len(idsResult.IDs))
 //@   ensures [aligned] res.Code == coreda.StatusSuccess ==> len(res.Data) == len(res.IDs)
 
